@@ -15,8 +15,8 @@ C(s, it) == [serial |-> s, items |-> it]
 A1 == <<"a", 1>>
 A2 == <<"a", 2>>
 B1 == <<"b", 1>>
-MCContentsSmall == {C(1, {}), C(1, {A1}), C(2, {A1})}
-MCContents == {C(1, {}), C(1, {A1}), C(2, {A1}), C(2, {A1, A2, B1}), C(3, {B1})}
+MCContentsSmall == {C(0, {}), C(1, {A1}), C(2, {A1})}
+MCContents == {C(0, {}), C(1, {A1}), C(2, {A1}), C(2, {A1, A2, B1}), C(3, {B1})}
 
 MCInit == Init /\ steps = 0
 MCNext == steps < MaxDepth /\ Next /\ steps' = steps + 1
